@@ -3,7 +3,7 @@
    [run_plan] executes the emitted nested graphs node by node (the emitted model with names erased: which application
    sits in which graph in which order; the naming layer is C02's).  The statement holds for EVERY operator semantics. *)
 From Coq Require Import List String NArith Arith Bool.
-From Spox Require Import Base IR Show Build Sem Plan Named Validate BuildFacts SemFacts NamedFacts EmitFacts CoverageFacts PlanFacts.
+From Spox Require Import Base IR Show Build Sem Plan Named Validate BuildFacts SemFacts NamedFacts EmitFacts CoverageFacts PlanFacts WfFacts LegalFacts.
 Import ListNotations.
 
 Theorem C01_build_sem :
@@ -104,3 +104,30 @@ Theorem C01_build_sem_by_construction :
     map (meaning p' 0 val dv opsem (bindv val dv args av)) (map snd outputs).
 Proof. exact build_sem_by_construction. Qed.
 Print Assumptions C01_build_sem_by_construction.
+
+(* C01 for LEGAL programs, with NO check of the output and NO evaluated plan premise.  [legal_b] is a decidable condition on the program
+   and the request only: acyclic object graph; operands are outputs of real nodes with valid output indices; attribute names unique per
+   node; only operator / function nodes carry subgraphs; the declared arguments of the graphs are distinct Argument outputs, disjoint
+   between graphs; and NO LEAK - every argument a node uses is declared by the graph the scope resolution places the node in, or by an
+   enclosing one.  The well-formedness of the emitted plan is then PROVED from the algorithm-level facts (discovery, placement = lowest
+   common ancestor, operands defined before use, coverage, the plan = ownership map unfolded), and whatever build_public returns computes,
+   for every extensional operator semantics and every input binding, the meaning of each requested Var. *)
+Theorem C01_plan_of_a_legal_program_is_well_formed :
+  forall ffuel p un main b, build_main ffuel p un main = inl b -> legal_b p main = true ->
+  wf (is_argP p) (insP p main) (subsP p main) (gargsP p) (gresP p) (noutsP p) (plan_of_graph p main (b_graph b)) [] [].
+Proof. exact build_main_plan_wf. Qed.
+Print Assumptions C01_plan_of_a_legal_program_is_well_formed.
+
+Theorem C01_build_sem_for_legal_programs :
+  forall p r m inputs outputs,
+  build_public p r = inl m -> all_vars (r_inputs r) = Some inputs -> all_vars (r_outputs r) = Some outputs ->
+  exists args, (r_drop r = false -> args = map snd inputs) /\ (forall a, In a args -> In a (map snd inputs)) /\
+    let p' := with_main p (Some args) outputs in
+    legal_b p' 0 = true ->
+    forall (val : Type) (dv : val) (opsem : nat -> list (option val) -> list (clos val) -> list val),
+    (forall n ivs c1 c2, Forall2 (fun a b => forall av, a av = b av) c1 c2 -> opsem n ivs c1 = opsem n ivs c2) ->
+    forall av,
+    run_plan p' 0 val dv opsem (plan_of_graph p' 0 (mmain m)) av =
+    map (meaning p' 0 val dv opsem (bindv val dv args av)) (map snd outputs).
+Proof. exact build_sem_legal. Qed.
+Print Assumptions C01_build_sem_for_legal_programs.
